@@ -464,13 +464,30 @@ def _inline_known_closure_calls(raw, raws, d=None, counter=None, max_sites=4):
         did = False
         for bb, blk in enumerate(raw["blocks"]):
             t = blk["term"]
-            if t["k"] != "call" or t.get("resolved") or blk.get("cleanup") or "dest" not in t or len(t.get("args", [])) != 2:
+            if t["k"] != "call" or t.get("resolved") or blk.get("cleanup") or "dest" not in t or (len(t.get("args", [])) != 2 and not t.get("untupled")):
                 continue
             if t.get("callee") not in ("core::ops::FnMut::call_mut", "core::ops::Fn::call", "core::ops::FnOnce::call_once"):
                 continue
             st = closure_of(t["args"][0])
             if st is None:
                 continue
+            if t.get("untupled"):
+                # a call made explicit by `_lower_option_combinators`: the arguments are already the closure's own parameters
+                cb = by_dpath.get(st["rv"]["def"])
+                if cb is None or cb["dpath"] == raw["dpath"] or len(t["args"]) != cb["arg_count"]:
+                    continue
+                makes = _creates_closure(cb)
+                if makes and (d is None or counter is None or _nested_closures(raws, cb)):
+                    continue
+                t["closure_call_of"] = cb["dpath"]
+                fb, fl = len(raw["blocks"]), len(raw["locals"])
+                inline_call(raw, bb, cb)
+                if makes:
+                    _clone_closures(d, raws, raw, cb, fb, fl, counter)
+                spliced.add(cb["dpath"])
+                n += 1
+                did = True
+                break
             cb = by_dpath.get(st["rv"]["def"])
             if cb is None or cb["dpath"] == raw["dpath"]:
                 continue
@@ -523,6 +540,132 @@ def _inline_known_closure_calls(raw, raws, d=None, counter=None, max_sites=4):
             for k in kids:
                 raws.remove(k)
             raws.remove(cb)
+    return n
+
+
+OPT_ = "core::option::Option::<T>::"
+
+
+def _lower_option_combinators(raw, raws, types, max_sites=12, sites=None):
+    """`x.map(c)`, `x.and_then(c)`, `x.or_else(c)`, `x.map_or(d, c)`, `x.unwrap_or_else(c)` with `c` a closure created in this very body are
+    what their definitions say: a test of `x` and, on one side, a call of `c`.  Written so (the call of `c` is then spliced in by
+    `_inline_known_closure_calls`), a chain of combinators is the control flow it stands for, for every rule at once.  Only in the views."""
+    by_dpath = {r["dpath"]: r for r in raws}
+    isize = next((i for i, t in enumerate(types) if t.get("s") == "isize"), None)
+    if isize is None:
+        return 0
+    n = 0
+    for _round in range(max_sites):
+        defs = {}
+        for blk in raw["blocks"]:
+            for st in blk["stmts"]:
+                if st["k"] in ("assign", "set_discr"):
+                    l = st["place"]["local"]
+                    defs.setdefault(l, []).append(st if st["k"] == "assign" and not st["place"]["proj"] else None)
+            t = blk["term"]
+            if t["k"] == "call" and "dest" in t:
+                defs.setdefault(t["dest"]["local"], []).append(None)
+
+        def closure_def(op, depth=0):
+            if op["k"] not in ("copy", "move") or op["place"]["proj"] or depth > 8:
+                return None
+            l = op["place"]["local"]
+            if l <= raw["arg_count"]:
+                return None
+            ds = defs.get(l, [])
+            if len(ds) != 1 or ds[0] is None:
+                return None
+            rv = ds[0]["rv"]
+            if rv["k"] == "aggregate" and rv.get("agg") == "closure":
+                return by_dpath.get(rv["def"])
+            if rv["k"] == "use":
+                return closure_def(rv["op"], depth + 1)
+            return None
+        did = False
+        for bb, blk in enumerate(raw["blocks"]):
+            t = blk["term"]
+            if t["k"] != "call" or blk.get("cleanup") or t.get("target") is None or "dest" not in t:
+                continue
+            cal = t.get("callee") or ""
+            if not cal.startswith(OPT_):
+                continue
+            kind = cal[len(OPT_):]
+            if kind not in ("map", "and_then", "or_else", "map_or", "unwrap_or_else") or len(t["args"]) != (3 if kind == "map_or" else 2):
+                continue
+            x = t["args"][0]
+            clo = t["args"][-1]
+            if x["k"] not in ("copy", "move") or x["place"]["proj"] or clo["k"] not in ("copy", "move"):
+                continue
+            cb = closure_def(clo)
+            if cb is None or cb["dpath"] == raw["dpath"]:
+                continue
+            xt = types[x["place"]["ty"]]
+            if xt.get("adt") != "core::option::Option" or not xt.get("args"):
+                continue
+            payload_ty = xt["args"][0]
+            takes_payload = kind in ("map", "and_then", "map_or")
+            if cb["arg_count"] != (2 if takes_payload else 1):
+                continue
+            sp = t["span"]
+            dest, target, unwind = t["dest"], t["target"], t.get("unwind")
+            blocks = raw["blocks"]
+            L = raw["locals"]
+            L.append({"ty": isize, "mut": True})
+            d_local = len(L) - 1
+            some_bb, none_bb = len(blocks), len(blocks) + 1
+            payload = {"k": "move", "place": {"local": x["place"]["local"], "proj": [{"k": "downcast", "variant": "Some", "vidx": 1},
+                       {"k": "field", "i": 0, "adt": "core::option::Option", "name": "0", "variant": "Some", "ty": payload_ty}], "ty": payload_ty}}
+
+            def call_closure(dst, args, tgt):
+                return {"k": "call", "func": {"k": "const", "ty": clo["place"]["ty"], "text": "<closure call>"}, "callee": "core::ops::FnOnce::call_once",
+                        "callee_args": "core::ops::FnOnce::call_once", "callee_dpath": "core::ops::function::FnOnce::call_once", "trait": "core::ops::FnOnce",
+                        "targs": [clo["place"]["ty"]], "unsafe": False, "local": False, "intrinsic": False, "resolved": None,
+                        "args": [dict(clo)] + args, "untupled": True, "dest": dst, "target": tgt, "unwind": unwind, "span": sp, "lowered_from": cal}
+            none_agg = {"k": "aggregate", "agg": "adt", "adt": "core::option::Option", "variant": "None", "vidx": 0, "fields": [], "ops": []}
+            if kind == "or_else":
+                some_blk = {"stmts": [{"k": "assign", "place": dest, "rv": {"k": "aggregate", "agg": "adt", "adt": "core::option::Option", "variant": "Some", "vidx": 1,
+                                                                             "fields": ["0"], "ops": [payload]}, "span": sp}],
+                            "term": {"k": "goto", "target": target, "span": sp}, "cleanup": False}
+                none_blk = {"stmts": [], "term": call_closure(dest, [], target), "cleanup": False}
+                extra = []
+            elif kind == "unwrap_or_else":
+                some_blk = {"stmts": [{"k": "assign", "place": dest, "rv": {"k": "use", "op": payload}, "span": sp}],
+                            "term": {"k": "goto", "target": target, "span": sp}, "cleanup": False}
+                none_blk = {"stmts": [], "term": call_closure(dest, [], target), "cleanup": False}
+                extra = []
+            elif kind == "and_then":
+                some_blk = {"stmts": [], "term": call_closure(dest, [payload], target), "cleanup": False}
+                none_blk = {"stmts": [{"k": "assign", "place": dest, "rv": none_agg, "span": sp}], "term": {"k": "goto", "target": target, "span": sp}, "cleanup": False}
+                extra = []
+            elif kind == "map_or":
+                some_blk = {"stmts": [], "term": call_closure(dest, [payload], target), "cleanup": False}
+                none_blk = {"stmts": [{"k": "assign", "place": dest, "rv": {"k": "use", "op": t["args"][1]}, "span": sp}],
+                            "term": {"k": "goto", "target": target, "span": sp}, "cleanup": False}
+                extra = []
+            else:   # map
+                rty = cb["locals"][0]["ty"]
+                L.append({"ty": rty, "mut": True})
+                r_local = len(L) - 1
+                wrap_bb = len(blocks) + 2
+                some_blk = {"stmts": [], "term": call_closure({"local": r_local, "proj": [], "ty": rty}, [payload], wrap_bb), "cleanup": False}
+                none_blk = {"stmts": [{"k": "assign", "place": dest, "rv": none_agg, "span": sp}], "term": {"k": "goto", "target": target, "span": sp}, "cleanup": False}
+                extra = [{"stmts": [{"k": "assign", "place": dest, "rv": {"k": "aggregate", "agg": "adt", "adt": "core::option::Option", "variant": "Some", "vidx": 1,
+                                                                           "fields": ["0"], "ops": [{"k": "move", "place": {"local": r_local, "proj": [], "ty": rty}}]}, "span": sp}],
+                          "term": {"k": "goto", "target": target, "span": sp}, "cleanup": False}]
+            first_new = len(blocks)
+            blocks.extend([some_blk, none_blk] + extra)
+            if sites is not None and not dest["proj"]:
+                sites.append((list(range(first_new, len(blocks))), dest["local"], target))
+            blk["stmts"].append({"k": "assign", "place": {"local": d_local, "proj": [], "ty": isize}, "rv": {"k": "discr", "place": dict(x["place"])}, "span": sp})
+            blk["term"] = {"k": "switch", "discr": {"k": "move", "place": {"local": d_local, "proj": [], "ty": isize}}, "targets": [[1, some_bb]], "otherwise": none_bb,
+                           "span": sp, "lowered_from": cal}
+            for k_ in ("_sroa", "_threaded", "_rnt", "_lic", "_lor"):
+                raw.pop(k_, None)
+            n += 1
+            did = True
+            break
+        if not did:
+            break
     return n
 
 
@@ -659,6 +802,32 @@ def build_view(facts, policy, roles=None, max_rounds=6, protect=()):
         return t.get("k") == "adt" and t.get("adt") == roles.S
 
     done = []
+    lowered = policy == "lowered"
+    if lowered:
+        policy = "private"
+
+    def lower_all():
+        k = 0
+        for r in list(raws):
+            if r not in raws:
+                continue
+            sites = []
+            tot = 0
+            for _i in range(6):
+                m = _lower_option_combinators(r, raws, d["types"], sites=sites)
+                sp_ = _inline_known_closure_calls(r, raws, d, clone_counter, max_sites=16) if m else 0
+                tot += m
+                if not m:
+                    break
+            if tot:
+                # the variant a combinator's result has on each side is known: send each side on to the arm the caller's next test takes
+                for new_blocks, dl, tgt in reversed(sites):
+                    _thread_constant_returns(r, new_blocks, dl, dl, tgt)
+                done.append((r["path"], "<option combinators>"))
+                k += tot
+        return k
+    if lowered:
+        lower_all()
     for _ in range(max_rounds):
         by_path, edges = _call_edges(raws)
         # recursion: functions on a cycle of the local call graph
@@ -742,9 +911,11 @@ def build_view(facts, policy, roles=None, max_rounds=6, protect=()):
                     x["parent_inlined_from"] = r["dpath"]
                     x["parent"] = by_path[next(iter(callers))]["dpath"]
                 raws.remove(r)
+    if lowered:
+        lower_all()          # combinators that became visible through inlining
     if not done:
         return None, []
-    return Facts.from_raw(d, facts.path + "#" + policy), done
+    return Facts.from_raw(d, facts.path + "#" + ("lowered" if lowered else policy)), done
 
 
-VIEWS = ("leaf", "private", "module")
+VIEWS = ("leaf", "private", "module", "lowered")
